@@ -12,3 +12,6 @@ import GscribModel.Props.C15
 import GscribModel.Props.C16
 import GscribModel.Props.C14
 import GscribModel.Props.C18
+import GscribModel.Props.C20
+import GscribModel.Props.C04
+import GscribModel.Props.C13
